@@ -4,6 +4,7 @@ import (
 	"bufio"
 	"context"
 	"fmt"
+	"net/http"
 	"net/url"
 	"strings"
 	"time"
@@ -25,6 +26,7 @@ type c18Case struct {
 	Variant  string   `json:"variant"` // crafted Via variant for topology single
 	Others   []string `json:"others"`  // other hops' elements
 	HTTP10   bool     `json:"http10"`
+	ConnHdr  bool     `json:"connect_header"` // --connect-header configured (the transport's GetProxyConnectHeader returns a field)
 	WOne     int      `json:"w_one"`
 	WRand    int      `json:"w_rand"`
 }
@@ -48,6 +50,7 @@ func genC18(t *tape.Tape, tier string) any {
 		c.Others = append(c.Others, pool[t.Intn(len(pool))])
 	}
 	c.HTTP10 = t.Chance(1, 8) && c.Kind == "http"
+	c.ConnHdr = t.Chance(1, 3)
 	c.WOne = t.Pick(6, 2, 1)
 	c.WRand = t.Pick(2, 4, 2) * 2
 	return c
@@ -65,13 +68,20 @@ func runC18(env *core.Env, ci any) {
 	env.Net.AddNode("sutB", ipSUT2, "proxy-b2.example")
 	addrA, addrB := ipSUT+":3128", ipSUT2+":3128"
 	mk := func(node, name, upstream string) (*sut.SUT, error) {
-		return sut.Start(env, sut.Options{Node: node, Config: func(cfg *forwarder.HTTPProxyConfig) {
+		s, err := sut.Start(env, sut.Options{Node: node, Config: func(cfg *forwarder.HTTPProxyConfig) {
 			cfg.Name = name
 			cfg.ProxyLocalhost = forwarder.AllowProxyLocalhost
 			if upstream != "" {
 				cfg.UpstreamProxy = &url.URL{Scheme: "http", Host: upstream}
 			}
 		}})
+		if err == nil && c.ConnHdr && s.Transport != nil {
+			// what the command line does for --connect-header (command/run is not part of the simulation)
+			s.Transport.GetProxyConnectHeader = func(context.Context, *url.URL, string) (http.Header, error) {
+				return http.Header{"X-Connect-Rule": {"configured"}}, nil
+			}
+		}
+		return s, err
 	}
 	var a, b *sut.SUT
 	var err error
